@@ -9,6 +9,8 @@ import KinModel.Schema.Spec
 import KinModel.Schema.History
 import KinModel.Schema.Pattern
 import KinModel.Gen.PatternCache
+import KinModel.Schema.Defaults
+import KinModel.Gen.SubVisits
 namespace KinModel.Schema
 
 theorem isEmpty_list_iff {α} (l : List α) : l.isEmpty = true ↔ l = [] := by cases l <;> simp
@@ -839,6 +841,99 @@ theorem history_independent_sat (pre : List Call) (k : Call) (post : List Call) 
 example : (({ regex := fun _ _ => some true, strFormat := fun _ _ => none } : Env).withCache
     (fun p => if p = "^a" then some (fun _ => false) else none)).regex "^a" "abc" = some false := by
   simp [Env.withCache]
+
+/-! ### validation with default injection: what a `not` child (and an unmatched candidate) does never reaches the value -/
+
+/-- how the model reads a row of table SubVisits -/
+def subVisitRunsOn (u : Gen.SubVisit) : Option RunsOn :=
+  if u.arg == "value" then some .self
+  else if u.arg == "elem" then some .elem
+  else if u.arg == "copy" && u.guard == "settings.asreq || settings.asrep" then some .copyUnderReading
+  else none   -- a copy under another condition (e.g. only for objects), or a shape the rule could not read
+
+/-- obligation over the regenerated table: every sub-schema visit of the source runs on the value the model gives it —
+`not`, the oneOf and the anyOf candidates on a private copy under EXACTLY `settings.asreq || settings.asrep`, everything
+else on the value itself or on its items / members; no call the rule could not read, none missing, none added -/
+theorem sub_visits_run_where_modelled :
+    Gen.subVisits.map (fun u => (u.fn, subVisitRunsOn u)) = modelSubVisits.map (fun r => (r.1, some r.2)) := by decide
+
+/-- the copies cover every injection: defaults are written only under a request / response reading -/
+theorem injection_only_under_reading (env : Env) (h : env.injects = true) : (env.asreq || env.asrep) = true := by
+  simp only [Env.injects, Bool.and_eq_true] at h
+  exact h.1
+
+/-- **Nothing a `not` child writes is ever read**: the visit of a node — events, hence the verdict in every mode, and the
+value handed back — is the same whatever value the `not` child left behind (lifted to the code by
+`sub_visits_run_where_modelled`: there the child runs on a private copy whenever it could write) -/
+theorem not_child_leaves_nothing (m : Mode) (env : Env) (kw : Kw) (a b c : List S) (p : List (String × S)) (sc : Bool) (v x : J)
+    (r : Subs) :
+    nodeD m env kw a b c p sc v { r with rn := r.rn.map (fun o => (o.1, x)) } = nodeD m env kw a b c p sc v r := by
+  cases r with
+  | mk rn ro ra rl items props addl => cases rn <;> rfl
+
+/-- the same for the verdict alone, in the reading of the seeded class: a `not` child that writes defaults into the items of
+an ARRAY value (x = the array with the defaults in it) changes nothing -/
+theorem not_child_verdict_unchanged (m : Mode) (env : Env) (kw : Kw) (a b c : List S) (p : List (String × S)) (sc : Bool) (v x : J)
+    (r : Subs) :
+    passesL (nodeD m env kw a b c p sc v { r with rn := r.rn.map (fun o => (o.1, x)) }).1 = passesL (nodeD m env kw a b c p sc v r).1 := by
+  rw [not_child_leaves_nothing]
+
+/-- **Nothing a oneOf / anyOf candidate that does not accept writes is ever read** (such a candidate runs on a private
+copy, table SubVisits rows 2 and 4): the visit of a node is the same whatever those candidates left behind -/
+theorem failed_candidates_leave_nothing (m : Mode) (env : Env) (kw : Kw) (a b c : List S) (p : List (String × S)) (sc : Bool)
+    (v x y : J) (r : Subs) :
+    nodeD m env kw a b c p sc v { r with ro := dropFailed x r.ro, ra := dropFailed y r.ra } = nodeD m env kw a b c p sc v r := by
+  cases r with
+  | mk rn ro ra rl items props addl =>
+    simp only [nodeD, afterOne, oneOK, afterAny, anyOK, outsEvs_dropFailed, passing_dropFailed, firstPass_dropFailed]
+
+/-- non-vacuity of `dropFailed`: the accepting candidate keeps what it wrote, the failing one does not -/
+example : (dropFailed .null [([], .str "kept"), ([.fail nullErr true], .str "dropped")]).map (fun o => jeq o.2 (.str "kept")) = [true, false] := by
+  decide
+
+/-- **Every default is accounted for**: a `default` the injection loop can reach is reachable without passing a `not`
+(it can be written into the caller's value: `hasOwnDflt`) or lives below a `not` (`dfltUnderNot`, where what is written is
+dropped) — the three predicates of Schema/Defaults.lean partition as the check's case split assumes -/
+theorem hasPropDflt_split_all :
+    (∀ s : S, s.hasPropDflt = (s.hasOwnDflt || s.dfltUnderNot)) ∧
+    (∀ p : List (String × S), hasPropDfltP p = (hasOwnDfltP p || dfltUnderNotP p)) ∧
+    (∀ o : Option S, hasPropDfltO o = (hasOwnDfltO o || dfltUnderNotO o)) ∧
+    (∀ l : List S, hasPropDfltL l = (hasOwnDfltL l || dfltUnderNotL l)) := by
+  refine S.hasPropDflt.mutual_induct
+    (motive_1 := fun s => s.hasPropDflt = (s.hasOwnDflt || s.dfltUnderNot))
+    (motive_4 := fun l => hasPropDfltL l = (hasOwnDfltL l || dfltUnderNotL l))
+    (motive_3 := fun o => hasPropDfltO o = (hasOwnDfltO o || dfltUnderNotO o))
+    (motive_2 := fun p => hasPropDfltP p = (hasOwnDfltP p || dfltUnderNotP p))
+    ?_ ?_ ?_ ?_ ?_ ?_ ?_
+  · intro kw a b c n i p ad iha ihb ihc ihn ihi ihp ihad
+    rw [S.hasPropDflt, S.hasOwnDflt, S.dfltUnderNot, iha, ihb, ihc, ihn, ihi, ihp, ihad]
+    grind
+  · simp [hasPropDfltL, hasOwnDfltL, dfltUnderNotL]
+  · intro s ss ih1 ih2
+    rw [hasPropDfltL, hasOwnDfltL, dfltUnderNotL, ih1, ih2]
+    cases s.hasOwnDflt <;> cases s.dfltUnderNot <;> simp
+  · simp [hasPropDfltO, hasOwnDfltO, dfltUnderNotO]
+  · intro s ih; simpa [hasPropDfltO, hasOwnDfltO, dfltUnderNotO] using ih
+  · simp [hasPropDfltP, hasOwnDfltP, dfltUnderNotP]
+  · intro k s ps ih1 ih2
+    rw [hasPropDfltP, hasOwnDfltP, dfltUnderNotP, ih1, ih2]
+    cases s.kw.dflt.isSome <;> cases s.hasOwnDflt <;> cases s.dfltUnderNot <;> simp
+
+theorem hasPropDflt_split (s : S) : s.hasPropDflt = (s.hasOwnDflt || s.dfltUnderNot) := hasPropDflt_split_all.1 s
+
+/-- a schema that cannot write into the caller's value has all its defaults below `not`s -/
+theorem defaults_only_under_not (s : S) (h : s.hasOwnDflt = false) : s.hasPropDflt = s.dfltUnderNot := by
+  rw [hasPropDflt_split, h, Bool.false_or]
+
+/-- non-vacuity: a `not` child that fails (so `not` is satisfied) and left an enlarged array behind — the node still
+hands back the caller's value -/
+example : jeq (nodeD .dflt { regex := fun _ _ => none, strFormat := fun _ _ => none, asreq := true, dfl := true }
+    {} [] [] [] [] false (.arr [.obj []])
+    { rn := some ([.fail nullErr true], .arr [.obj [("a", .str "d")]]), ro := [], ra := [], rl := [], items := [], props := [], addl := [] }).2
+    (.arr [.obj []]) = true := by decide
+
+/-- non-vacuity of the table reading: a copy that is only made for object values is NOT what the model has -/
+example : subVisitRunsOn ⟨"visitNotOperation", "copy", "isObject && (settings.asreq || settings.asrep)"⟩ = none := by decide
 
 /-! ### the pattern translation `intoGoRegexp` inside the model -/
 
